@@ -65,9 +65,17 @@ def same(a, b):
 
 class Config:
     def __init__(self, names, extra):
+        # history before the group exists: "preset" = plain values were
+        # assigned to the device variables while the devices were in no
+        # group; "regroup" = the devices were in another group before
+        self.variant = None
+        if names and names[0] in ("preset", "regroup"):
+            self.variant, names = names[0], names[1:]
         self.names = list(names)
         self.extra = extra
         self.case = dict(devices=self.names, extra=extra)
+        if self.variant:
+            self.case["history"] = self.variant
         self.viol = []      # (category, expected, observed, kf)
         self.sg = None
         self.accessible = False
@@ -81,6 +89,15 @@ class Config:
         ec = ParallelEtherCat("c29")
         devs = [K.CLASSES[n]() for n in self.names]
         try:
+            if self.variant == "preset":
+                for d in devs:
+                    for i, f in enumerate(d.FMTS):
+                        if len(f) == 1 and f not in "?x":
+                            setattr(d, "v%d" % i, 2 + 2 * i)
+            elif self.variant == "regroup":
+                other = [K.CLASSES[self.names[-1]]()] + devs[::-1]
+                ProcessSyncGroup(ec, other)
+                _ARRAYS.clear()
             self.sg = ProcessSyncGroup(ec, devs)
         except Exception as e:
             self.bad("constructing ProcessSyncGroup raised", "a sync group",
@@ -142,12 +159,17 @@ class Config:
                 return
             raw = bytes(self.arr)
             own = [i for i in range(size) if raw[i]]
-            foot.append(own)
             need = K.SIZES[fmt]
-            if len(own) != need or own != list(range(own[0], own[0] + need)):
+            pat = K.owned_pattern(fmt)
+            base = own[0] - pat[0] if own else 0
+            if own != [base + i for i in pat]:
                 self.bad("variable does not own exactly the bytes of its "
                          "format", "%d contiguous bytes (%s)" % (need, fmt),
                          own)
+                foot.append(own)
+            else:
+                # the whole slot, padding included
+                foot.append(list(range(base, base + need)))
         self.arr[:] = bytes(size)
         us = self.usable()
         for i in range(len(us)):
@@ -329,6 +351,15 @@ def configurations(ctx):
                 add(i, i, i + 5)
             else:
                 add(i + 5, i, i)
+    # the same with a history (see Config)
+    hist = small if not ctx.quick else small[::2]
+    for i in hist:
+        for v in ("preset", "regroup"):
+            out.append((v, names[i % n], names[(i + 1) % n]))
+            if not ctx.quick:
+                out.append((v, names[i % n]))
+                out.append((v, names[i % n], names[i % n],
+                            names[(i + 31) % n]))
     seen, uniq = set(), []
     for c in out:
         if c not in seen:
@@ -375,7 +406,7 @@ def run_configs(ctx, confs, extra, res):
                 res.count("traces_validated_against_impl")
                 if c.accessible:
                     res.nontrivial.add(core.digest(c.case))
-                res.outcomes.add((len(c.names), len(set(c.names)),
+                res.outcomes.add((c.variant, len(c.names), len(set(c.names)),
                                   c.accessible, tuple(v[0] for v in c.viol)))
                 for cat, exp, obs, kf in c.viol:
                     res.violation(c.case, exp, obs, kf=kf,
@@ -405,7 +436,7 @@ def selftest():
             raw = struct.pack(fmt, K.PROBE[fmt])
         if 0 in raw:
             raise core.Internal("probe for %r has a zero byte" % fmt)
-    if len(K.ORDER) != 285 + 6 or len(set(K.ORDER)) != len(K.ORDER):
+    if len(K.ORDER) != 285 + 9 or len(set(K.ORDER)) != len(K.ORDER):
         raise core.Internal("class table incomplete")
 
 
@@ -431,7 +462,9 @@ def run(ctx):
         "fixed-point ('x') values are dyadic, so no rounding is involved",
         "storage is identified black-box: the bytes of the shared array that "
         "change when a value without zero bytes is written",
-        "classes do not override inherited DeviceVars",
+        "formats are native ones (struct without prefix): 'l'/'L' are 8 "
+        "bytes here, 'hI'/'BI' contain padding, which belongs to the "
+        "variable's slot",
     ]
     return res
 
@@ -439,7 +472,10 @@ def run(ctx):
 def replay(ctx, rep):
     c = rep["case"]
     res = core.Result()
-    run_configs(ctx, [tuple(c["devices"])], c.get("extra", 0), res)
+    names = tuple(c["devices"])
+    if c.get("history"):
+        names = (c["history"],) + names
+    run_configs(ctx, [names], c.get("extra", 0), res)
     for v in res.violations:
         print("  ", v["note"], "| expected", v["expected"], "| observed",
               v["observed"])
